@@ -67,11 +67,54 @@ def check(run, F, tier):
         for k, items, p, _raw in b:
             db.setdefault(k, set()).add(tuple(items))
         bad = None
-        # guard valuations must coincide (a guard tested by one only shows up as an unmatched key)
-        for k in set(da) | set(db):
-            if da.get(k) != db.get(k):
-                bad = (k, da.get(k), db.get(k))
-                break
+        if set(da) == set(db):
+            # same guards on both sides: compare valuation by valuation
+            for k in set(da) | set(db):
+                if da.get(k) != db.get(k):
+                    bad = (k, da.get(k), db.get(k))
+                    break
+        else:
+            # one side tests something the other does not (e.g. `if !x.is_empty()` around appending x): every pair of
+            # paths whose guards can hold together must append the same sources, sources known empty on the pair left out
+            def atoms(k):
+                return {(" ".join(x.split(" ")[:-2]), " ".join(x.split(" ")[-2:])) for x in k if isinstance(x, str)}
+
+            def compatible(k1, k2):
+                m1 = dict(atoms(k1))
+                for t_, v_ in atoms(k2):
+                    if t_ in m1 and m1[t_] != v_ and m1[t_].split(" ")[0] == "eq" and v_.split(" ")[0] == "eq":
+                        return False
+                    if t_ in m1 and {m1[t_].split(" ")[0], v_.split(" ")[0]} == {"eq", "ne"}:
+                        ev = m1[t_] if m1[t_].startswith("eq") else v_
+                        nv = v_ if m1[t_].startswith("eq") else m1[t_]
+                        if ev.split(" ")[1] in nv.replace("[", " ").replace("]", " ").replace(",", " ").split():
+                            return False
+                return True
+
+            def nonempty_items(items, k):
+                keep = []
+                txt = " | ".join(x for x in k if isinstance(x, str))
+                for it in items:
+                    src = it[1] if isinstance(it, tuple) and len(it) > 1 and isinstance(it[1], str) else None
+                    if src is not None:
+                        core = src.lstrip("*$").replace("deref(", "").rstrip(")")
+                        # `len(src) eq 0` / `(cmp,Eq,0,len(src)) eq 1` among the pair's guards: an empty source contributes nothing
+                        if ("(len,%s) eq 0" % core) in txt or ("(len,$%s) eq 0" % core.lstrip("$")) in txt:
+                            continue
+                    keep.append(it)
+                return tuple(keep)
+            for k1, s1 in da.items():
+                for k2, s2 in db.items():
+                    if not compatible(k1, k2):
+                        continue
+                    kk = tuple(sorted(set(x for x in k1 if isinstance(x, str)) | set(x for x in k2 if isinstance(x, str))))
+                    n1 = {nonempty_items(x, kk) for x in s1}
+                    n2 = {nonempty_items(x, kk) for x in s2}
+                    if n1 != n2:
+                        bad = (kk, n1, n2)
+                        break
+                if bad:
+                    break
         if bad:
             r1.violation(key, "%s: serialisers disagree under %s: contiguous=%s vectored=%s" % (ty, list(bad[0])[:6], sorted(bad[1] or [])[:2], sorted(bad[2] or [])[:2]),
                          {"valuation": list(bad[0]), "to_continuous_buffer": [list(x) for x in (bad[1] or [])], "to_buffers": [list(x) for x in (bad[2] or [])]},
